@@ -130,6 +130,36 @@ def run(seed=0, rounds=3):
 
         check("add.at", sat(elem.add), nat(np.add), flat, idx, upd)
         check("subtract.at", sat(elem.sub), nat(np.subtract), flat, idx, upd)
+        # ufunc.at ignores the writeable flag (writes through read-only views); np.put honours it
+        def sat_ro(a, i, v):
+            base = a.copy()
+            ro = base.view()
+            ro.flags.writeable = False
+            S.sym_ufunc_at(elem.add, ro, _symidx(i), v)
+            return base
+
+        def nat_ro(a, i, v):
+            base = a.copy()
+            ro = base.view()
+            ro.flags.writeable = False
+            np.add.at(ro, i, v)
+            return base
+
+        check("add.at[read-only view]", sat_ro, nat_ro, flat, idx, upd)
+
+        def put_ro(putter):
+            def f(a, i, v):
+                ro = a.copy()
+                ro.flags.writeable = False
+                try:
+                    putter(ro, i, v)
+                    return np.array([0])
+                except ValueError:
+                    return np.array([1])
+
+            return f
+
+        check("put[read-only] raises", put_ro(lambda a, i, v: S.sym_put(a, _symidx(i), v)), put_ro(lambda a, i, v: np.put(a, i, v)), flat, idx, upd)
         idx2 = idx.reshape(5, 1)
         check("add.at[(l,1)]", sat(elem.add), nat(np.add), flat, idx2, upd.reshape(5, 1))
         if len(shp) == 2:
